@@ -606,6 +606,9 @@ func replaySystematic(line string) (string, bool) {
 }
 
 func execC06(line string) (string, bool) {
+	if strings.HasPrefix(line, "bufsess ") {
+		return "accept", true // the observation is the line; the driver is the judge
+	}
 	if t := strings.Fields(line); len(t) >= 2 && (t[1] == "truncation" || t[1] == "grid" || t[1] == "systematic") {
 		return replaySystematic(line)
 	}
@@ -702,7 +705,14 @@ func genC06(c *Ctx) {
 		seed := c.seed*1000003 + int64(i)
 		line := fmt.Sprintf("c06 %s target=%s msize=%d dotu=%v seed=%d", kind, target, msize, dotu, seed)
 		c.begin(line)
+		var bw *bufWatch
+		if kind == "structured" {
+			bw = startBufWatch()
+		}
 		res := runC06(line, kind, target, msize, dotu, seed)
+		if bw != nil {
+			bw.emit(c)
+		}
 		c.count("kind:" + kind)
 		c.count("target:" + target)
 		c.count(fmt.Sprintf("msize:%d", msize))
